@@ -115,8 +115,8 @@ type glueFailure struct {
 }
 
 type execStats struct {
-	steps, rebuildChecks, watchChecks, watchChanged, dirtySeen, diskChecks, errorBuilds, cures, flakes int
-	kinds                                                                                              map[string]int
+	steps, rebuildChecks, watchChecks, watchChanged, dirtySeen, diskChecks, errorBuilds, cures, flakes, probeRuns int
+	kinds                                                                                                         map[string]int
 }
 
 func readOutdir(outdir string) map[string]string {
@@ -160,14 +160,21 @@ func runHistory(h *history, dir string, es *execStats) []glueFailure {
 
 	var prevFresh string
 
+	var lastRB api.BuildResult
 	compare := func(stepNo int) (ok bool, got, expect string, gc, ec canonResult) {
 		rb := ctx.Rebuild()
+		lastRB = rb
 		fr := api.Build(opts)
 		gs, gcr := canon(rb)
 		fs, fcr := canon(fr)
 		es.rebuildChecks++
 		if len(fr.Errors) > 0 {
 			es.errorBuilds++
+			t := fr.Errors[0].Text
+			if len(t) > 60 {
+				t = t[:60]
+			}
+			es.kinds[t]++
 		}
 		if gs != fs {
 			// rule out a nondeterministic fresh build before blaming the context
@@ -239,6 +246,15 @@ func runHistory(h *history, dir string, es *execStats) []glueFailure {
 					}
 					fails = append(fails, glueFailure{what: what, stepNo: k, got: "dirty paths: []", expect: "at least one dirty path (fresh build result changed)",
 						detail: map[string]interface{}{"watched_paths_of_previous_build": relTo(root, watched)}})
+				}
+			}
+		}
+		if ok && h.Cfg.Bundle && len(lastRB.Errors) == 0 && h.Steps[k].ProbeExpect != "" {
+			// run the rebuilt bundle: the data-layer values must be the ones the project defines
+			if line, ran := runProbe(filepath.Join(dir, "run"), outdir, h.Cfg.Format, lastRB.OutputFiles); ran {
+				es.probeRuns++
+				if line != h.Steps[k].ProbeExpect {
+					fails = append(fails, glueFailure{what: whatProbe, stepNo: k, got: line, expect: h.Steps[k].ProbeExpect})
 				}
 			}
 		}
@@ -346,6 +362,8 @@ func streamGlue(seed uint64, n int, tier string, tmp string) *Stats {
 		}
 	}
 	st.Extra["steps"] = es.steps
+	st.Extra["first_error_of_failing_builds"] = es.kinds
+	st.Extra["bundles_executed_in_node"] = es.probeRuns
 	st.Extra["edit_script_ops_refused_by_os"] = opsRefused
 	st.Extra["rebuild_vs_fresh_checks"] = es.rebuildChecks
 	st.Extra["watch_checks"] = es.watchChecks
